@@ -385,8 +385,15 @@ func (e *Env) adaptRecv(v Value, t types.Type) Value {
 }
 
 func (e *Env) inlineLit(x *ast.CallExpr, fl *ast.FuncLit) Value {
+	return e.inlineLitArgs(x, fl, nil, false)
+}
+
+// inlineLitArgs: with preEvaluated, args are the values the arguments had earlier (a deferred call).
+func (e *Env) inlineLitArgs(x *ast.CallExpr, fl *ast.FuncLit, args []Value, preEvaluated bool) Value {
 	sig := e.info().Types[fl].Type.(*types.Signature)
-	args := e.evalArgs(x, sig)
+	if !preEvaluated {
+		args = e.evalArgs(x, sig)
+	}
 	e.inline++
 	defer func() { e.inline-- }()
 	i := 0
